@@ -151,15 +151,18 @@ def neglected(v, lat, wa):
     a = v / R0 * tl
     N = np.array([
         # d/dDR                                   d/dDV                     d/dPHI
-        [C_N[0, 0] * a + 1e-9,                    C_N[0, 1] * (a + 1e-9),   C_N[0, 2] * v * (a + OMEGA) + 1e-9],        # DR
+        [C_N[0, 0] * a + 1e-9,                    C_N[0, 1] * (a + 1e-9),   C_N[0, 2] * v * (a + OMEGA)],               # DR
         [C_N[1, 0] * (v * (OMEGA + a) * tl / R0 + G0 / R0 * 2e-2), C_N[1, 1] * a + 1e-9, C_N[1, 2] * v * (OMEGA + a) + 1e-7],  # DV
-        [C_N[2, 0] * (v / R0 ** 2 * tl ** 2) + 2e-14, C_N[2, 1] * (a / max(v, 1.0) * 1e-1 + 1e-12), C_N[2, 2] * a + 1e-9],   # PHI
+        [C_N[2, 0] * (v / R0 ** 2 * tl ** 2) + 2e-14, C_N[2, 1] * (a / max(v, 1.0) * 1e-1 + 1e-12), C_N[2, 2] * a],   # PHI
     ])
     return N
 
 
 # measured max of (residual - 4 x discretisation change - floor)/form over 1152 random cases: 0.28, 0.0098, 0 / 0.088, 0.0014, 0.50 / 0.27, 2e-4, 0
-C_N = np.array([[1.5, 1.0, 1.0], [1.0, 1.0, 2.5], [1.5, 1.0, 1.0]])
+# Blocks whose measured residual never exceeded 4 x discretisation change + floor (DR/PHI, PHI/PHI: max 0.28 / 0.37 of it) get NO
+# neglected-term allowance; the others 5 x their measured excess. (A first version allowed |V|/R in PHI/PHI: exactly the size of the
+# R @ V_skew term, whose sign error was therefore invisible - found by a seeded change.)
+C_N = np.array([[1.5, 0.05, 0.0], [0.5, 0.01, 2.5], [1.5, 0.002, 0.0]])
 
 
 def propagate_bound(Nb, Fb, T, terms=6):
@@ -319,6 +322,12 @@ def run_propagate(case, ctx):
         e0[2] = e0[5] = 0.0
     chk = np.arange(0, n + 1, n // 10)
     em = error_model.InsErrorModel(wa)
+    # sensor errors: constant 3-vectors, or (sub % 3 == 0) specified per trajectory row and varying in time
+    per_row = case['sub'] % 3 == 0
+    t_rows = np.concatenate([[0.0], np.cumsum(dts)])
+    t_half = np.concatenate([[0.0], np.cumsum(np.repeat(dts / 2, 2))])
+    shape_t = (lambda t: 1.0 + 0.8 * np.sin(0.9 * t / max(T / 20.0, 1.0) + 0.4)) if per_row else (lambda t: np.ones_like(t))
+    ctx.label('sensor_errors=per_row_time_varying' if per_row else 'sensor_errors=constant')
     F, Bg, Ba = em.system_matrices(nom)
     ns = F.shape[-1]
     out = {}
@@ -327,19 +336,27 @@ def run_propagate(case, ctx):
         start = ctx.sut(sim.perturb_pva, pva, err)
         start.name = 0.0
         ip = inc.copy()
-        ip[INC[1:4]] += ge * s * dts[:, None]
-        ip[INC[4:7]] += ae * s * dts[:, None]
+        mid = 0.5 * (t_rows[1:] + t_rows[:-1])
+        ip[INC[1:4]] += ge * s * (dts * shape_t(mid))[:, None]
+        ip[INC[4:7]] += ae * s * (dts * shape_t(mid))[:, None]
         pert = ctx.sut(strapdown.Integrator(start, wa).integrate, ip)
         nsnap = nom.copy()
-        lin, mod = ctx.sut(error_model.propagate_errors, nom, err, ge * s, ae * s, wa)
-        ctx.check(nom.equals(nsnap), 'input_modified', '')
+        if per_row:
+            ge_arg = ge[None, :] * s * shape_t(t_rows)[:, None]
+            ae_arg = ae[None, :] * s * shape_t(t_rows)[:, None]
+        else:
+            ge_arg, ae_arg = ge * s, ae * s
+        gsnap = np.array(ge_arg, copy=True)
+        lin, mod = ctx.sut(error_model.propagate_errors, nom, err, ge_arg, ae_arg, wa)
+        ctx.check(nom.equals(nsnap) and np.array_equal(ge_arg, gsnap), 'input_modified', '')
         ctx.check(list(lin.columns) == gen.ERR_COLS and lin.index.equals(nom.index) and list(mod.columns) == em.states
                   and mod.index.equals(nom.index), 'schema', lambda: f'{list(lin.columns)} {list(mod.columns)}')
-        lin2, _ = ctx.sut(error_model.propagate_errors, nom.iloc[::2], err, ge * s, ae * s, wa)
+        lin2, _ = ctx.sut(error_model.propagate_errors, nom.iloc[::2], err, ge_arg[::2] if per_row else ge_arg, ae_arg[::2] if per_row else ae_arg, wa)
         act = np.array([EC.output_difference(pert.iloc[k], nom.iloc[k]) for k in chk])
         iph = inc_h.copy()
-        iph[INC[1:4]] += ge * s * np.repeat(dts / 2, 2)[:, None]
-        iph[INC[4:7]] += ae * s * np.repeat(dts / 2, 2)[:, None]
+        mid_h = 0.5 * (t_half[1:] + t_half[:-1])
+        iph[INC[1:4]] += ge * s * (np.repeat(dts / 2, 2) * shape_t(mid_h))[:, None]
+        iph[INC[4:7]] += ae * s * (np.repeat(dts / 2, 2) * shape_t(mid_h))[:, None]
         pert_h = strapdown.Integrator(start, wa).integrate(iph)
         act_h = np.array([EC.output_difference(pert_h.iloc[2 * k], nom_h.iloc[2 * k]) for k in chk])
         acti = np.array([to_state(EC.internal_error(pert.iloc[k], nom.iloc[k]), wa) for k in chk])
